@@ -86,6 +86,16 @@ func (ec *ErrorCause) croppedJSON() []byte {
 		return nil
 	}
 
+	// JSON escaping can expand the remaining text several times (e.g. '<' is rendered
+	// as \u003c), so keep halving Message & WorkingDir until the document fits
+	for length := (MaxErrorCauseSizeBytes - paddingForFieldNames) / 4; len(validErrorCauseJSON) > MaxErrorCauseSizeBytes && length > 8; length /= 2 {
+		compactor.ec.Message = cropString(compactor.ec.Message, length)
+		compactor.ec.WorkingDir = cropString(compactor.ec.WorkingDir, length)
+		if validErrorCauseJSON, err = json.Marshal(compactor.cause()); err != nil {
+			return nil
+		}
+	}
+
 	return validErrorCauseJSON
 }
 
